@@ -131,7 +131,7 @@ pub fn op(cfg: ProgCfg, nkeys: usize, nblobs: usize) -> BoxedStrategy<Op> {
             prop_oneof![3 => Just(XKind::Copy), 2 => Just(XKind::HardLink), 1 => Just(XKind::Reflink)],
             prop::bool::weighted(0.7),
             gen::by(nkeys, nblobs),
-            prop_oneof![3 => Just(Dest::Absent), 1 => Just(Dest::Existing)],
+            prop_oneof![4 => Just(Dest::Absent), 2 => Just(Dest::Existing), 1 => Just(Dest::OtherFs)],
         )
             .prop_map(|(kind, checked, by, dest)| Op::Extract { kind, checked, by, dest })
             .boxed(),
